@@ -9,7 +9,7 @@ SP_TB = [
 
 PROPS = {
     "C02": {
-        "modules": ["SamlVerif.Props.C02", "SamlVerif.Props.PureSaml"],
+        "modules": ["SamlVerif.Props.C02", "SamlVerif.Props.TransSP", "SamlVerif.Props.PureSaml"],
         "trusted_base": SP_TB,
         "assumptions": ["instants are integers (ms); Go time.Time saturation is not reachable for parsed years 0..9999 and |tolerance| < 2^63 ns",
                         "signature states are as constructed by the harness (signed by a trusted key = valid, by another key = invalid)"],
@@ -19,7 +19,7 @@ PROPS = {
                 "ServiceProvider.ParseXMLResponse under a controlled TimeNow; distinct = distinct abstract case lines",
     },
     "C03": {
-        "modules": ["SamlVerif.Props.C03", "SamlVerif.Props.PureSaml"],
+        "modules": ["SamlVerif.Props.C03", "SamlVerif.Props.TransSP", "SamlVerif.Props.PureSaml"],
         "trusted_base": SP_TB,
         "assumptions": ["string comparison in Go is byte equality; model strings are Unicode strings (cases are valid UTF-8)"],
         "rule": "near-miss lattice {correct, wrong, upper-cased, trailing slash, query, proper prefix, extension, empty, absent} for Response Issuer, "
@@ -27,7 +27,7 @@ PROPS = {
                 "validator x received-at URL =/!= ACS; single perturbations exhaustively, 2-3-fold sampled",
     },
     "C04": {
-        "modules": ["SamlVerif.Props.C04", "SamlVerif.Props.PureSaml", "SamlVerif.Props.PureSamlsp"],
+        "modules": ["SamlVerif.Props.C04", "SamlVerif.Props.TransSP", "SamlVerif.Props.PureSaml", "SamlVerif.Props.PureSamlsp"],
         "trusted_base": SP_TB,
         "assumptions": [],
         "rule": "outstanding-ID sets {empty, one, several, containing \"\", near-miss} x InResponseTo {match, other, empty, prefix, extension} at response "
@@ -96,7 +96,7 @@ PROPS["C05"] = {
 }
 
 PROPS["C18"] = {
-    "modules": ["SamlVerif.Props.C18", "SamlVerif.Props.PureSaml"],
+    "modules": ["SamlVerif.Props.C18", "SamlVerif.Props.TransSP", "SamlVerif.Props.PureSaml"],
     "trusted_base": SP_TB + ["the validator reads time.Now(), not the library clock: freshness cases keep a 5 s guard band around the boundary"],
     "assumptions": ["inflate(deflate b) = b for the encodings-agree theorem"],
     "rule": "both encodings x 4 entry points x signature transformations (valid, none, untrusted key, edited after signing, relocated, duplicated, other trusted-looking key) "
